@@ -269,7 +269,7 @@ def native_run(probe_c, driver_c, tag):
     try:
         if rc != 0:
             return ("cc-fail", rc, o + e)
-        rc, o, e, _ = vf.run(["gcc", "-w", "-O0", "-o", base + ".exe", base + "_d.c", base + "_p.o", "-lm"], timeout=120)
+        rc, o, e, _ = vf.run(["gcc", "-w", "-O0", "-pthread", "-o", base + ".exe", base + "_d.c", base + "_p.o", "-lm"], timeout=120)
         if rc != 0:
             return ("link-fail", rc, o + e)
         rc, o, e, _ = vf.run([base + ".exe"], timeout=60)
@@ -361,6 +361,10 @@ def _work(idxs):
             M = asmx.Machine(P, max_visits=p.max_visits, extern_ret=p.extern_ret)
             M.inline = p.inline
             M.stop_after = getattr(p, "stop_after", {})
+            M.cut_loops = getattr(p, "cut_loops", False)
+            for v in getattr(p, "volatile", ()):
+                M.volatile.add("&" + v)
+                M.symaddr(v)
             if hasattr(p, "assumptions"):
                 M.assumes.extend(p.assumptions(M))      # input preconditions: prune infeasible paths while exploring
             finals = M.run(p.fn, init=lambda s: p.init(M, s))
@@ -454,7 +458,7 @@ cat > "$WORK/d.c" <<'EOF_D'
 %s
 EOF_D
 "$CHIBICC" -I"$CHIBICC_INCLUDE" -c -o "$WORK/p.o" "$WORK/p.c" || { echo "chibicc failed"; exit 3; }
-gcc -w -O0 -o "$WORK/t.exe" "$WORK/d.c" "$WORK/p.o" -lm || exit 4
+gcc -w -O0 -pthread -o "$WORK/t.exe" "$WORK/d.c" "$WORK/p.o" -lm || exit 4
 "$WORK/t.exe"; rc=$?; echo "exit status $rc"; exit $rc
 '''
 
